@@ -119,34 +119,34 @@ the control state after equals the control state before. -/
 theorem boundary_balanced_try (fuel : Nat) (b : Beh) (s : Vm) (hI : Inv s) :
     (tryB (run fuel) b s).1 ≠ .stuck ∧ ctlState (tryB (run fuel) b s).2 = ctlState s :=
   have h := tryB_spec (run_good fuel).1 (run_good fuel).2 b s hI
-  ⟨h.1, ctl_of_same h.2.1⟩
+  ⟨h.1.1, ctl_of_same h.2.1⟩
 
 /-- **boundary_balanced, runWrapped** (at any depth: nested from a native frame or outermost) -/
 theorem boundary_balanced_runWrapped (fuel lf : Nat) (b : Beh) (s : Vm) (hI : Inv s) :
     (runWrapped (run fuel) lf b s).1 ≠ .stuck ∧ ctlState (runWrapped (run fuel) lf b s).2 = ctlState s :=
   have h := runWrapped_spec (run_good fuel).1 (run_good fuel).2 lf b s hI
-  ⟨h.1, ctl_of_same h.2.1⟩
+  ⟨h.1.1, ctl_of_same h.2.1⟩
 
 /-- **boundary_balanced, Callable** (`AssertFunction(v)(this, args…)`, ExportTo'd functions) -/
 theorem boundary_balanced_callable (fuel : Nat) (n : Nat) (f : FnInfo) (b : Beh) (s : Vm) (hI : Inv s) :
     (apiCall fuel (.callable n f) b s).1 ≠ .stuck ∧
     ctlState (apiCall fuel (.callable n f) b s).2 = ctlState s :=
   have h := apiCall_spec fuel (.callable n f) b s hI
-  ⟨h.1, ctl_of_same h.2.1⟩
+  ⟨h.1.1, ctl_of_same h.2.1⟩
 
 /-- **boundary_balanced, Constructor** (`AssertConstructor(v)(newTarget, args…)`) -/
 theorem boundary_balanced_constructor (fuel : Nat) (n : Nat) (f : FnInfo) (b : Beh) (s : Vm) (hI : Inv s) :
     (apiCall fuel (.constructor n f) b s).1 ≠ .stuck ∧
     ctlState (apiCall fuel (.constructor n f) b s).2 = ctlState s :=
   have h := apiCall_spec fuel (.constructor n f) b s hI
-  ⟨h.1, ctl_of_same h.2.1⟩
+  ⟨h.1.1, ctl_of_same h.2.1⟩
 
 /-- **boundary_balanced, RunProgram recursive** (from a native frame), including the overflow of its own
 pushCtx at the depth limit (fix 195a32b) -/
 theorem boundary_balanced_runProgram_recursive (fuel p : Nat) (b : Beh) (s : Vm) (hI : Inv s) :
     (runProgramRec (run fuel) p b s).1 ≠ .stuck ∧ ctlState (runProgramRec (run fuel) p b s).2 = ctlState s :=
   have h := runProgramRec_spec (run_good fuel).1 (run_good fuel).2 p b s hI
-  ⟨h.1, ctl_of_same h.2.1⟩
+  ⟨h.1.1, ctl_of_same h.2.1⟩
 
 /-- **boundary_balanced, RunProgram outermost**: also `prg` and `sb` are back (fix e71ffae), for every ending -/
 theorem boundary_balanced_runProgram_outermost (fuel lf p : Nat) (b : Beh) (s : Vm) (hI : Inv s)
@@ -154,14 +154,14 @@ theorem boundary_balanced_runProgram_outermost (fuel lf p : Nat) (b : Beh) (s : 
     (runProgramOuter (run fuel) lf p b s).1 ≠ .stuck ∧
     ctlState (runProgramOuter (run fuel) lf p b s).2 = ctlState s :=
   have h := (runProgramOuter_spec (run_good fuel).1 (run_good fuel).2 lf p b s hI h0).1
-  ⟨h.1, ctl_of_same h.2.1⟩
+  ⟨h.1.1, ctl_of_same h.2.1⟩
 
 /-- **boundary_balanced**, all host API calls at once (RunProgram picks its branch by the call-stack length;
 `try_`/`tryGet` are Runtime.Try around Go-side operations / a getter) -/
 theorem boundary_balanced (fuel : Nat) (k : TopApi) (b : Beh) (s : Vm) (hI : Inv s) :
     (apiCall fuel k b s).1 ≠ .stuck ∧ ctlState (apiCall fuel k b s).2 = ctlState s :=
   have h := apiCall_spec fuel k b s hI
-  ⟨h.1, ctl_of_same h.2.1⟩
+  ⟨h.1.1, ctl_of_same h.2.1⟩
 
 /-! ## leave / leaveAbrupt -/
 
@@ -233,7 +233,7 @@ theorem idle_after_any_api_call (fuel : Nat) (k : TopApi) (b : Beh) (s : Vm) (hs
   obtain ⟨x1, x2⟩ := apiCall_exit fuel k b s hI f
   have hr := h2.regs
   simp only [Vm.regs, Regs.mk.injEq] at hr
-  refine ⟨h1, ⟨h2.sp.trans a, hr.2.1.trans b1, hr.1.trans c, h2.stash.trans d, h2.privEnv.trans e,
+  refine ⟨h1.1, ⟨h2.sp.trans a, hr.2.1.trans b1, hr.1.trans c, h2.stash.trans d, h2.privEnv.trans e,
     h2.cs.trans f, h2.ts.trans g, h2.is.trans h, h2.rs.trans i, ?_⟩, fun hf => (x1 hf).1, x2⟩
   by_cases hf : (apiCall fuel k b s).1 = .fatal
   · exact (x1 hf).2
